@@ -56,13 +56,30 @@ func trunc(v int64, t types.Type, sizes types.Sizes) int64 {
 
 // RunSCCP propagates constants with params bound as given.
 func RunSCCP(fn *ssa.Function, params map[*ssa.Parameter]interface{}, sizes types.Sizes) *SCCP {
+	pins := map[ssa.Value]interface{}{}
+	for p, v := range params {
+		pins[p] = v
+	}
+	return RunSCCPPinned(fn, pins, sizes)
+}
+
+// ValueOf returns the constant an SSA value folds to, if any.
+func (s *SCCP) ValueOf(v ssa.Value) (interface{}, bool) {
+	l := s.get(v)
+	return l.V, l.Known
+}
+
+// RunSCCPPinned propagates constants with arbitrary SSA values (parameters, call
+// results, loop phis) pinned to constants: "what does the code do when this value is c".
+func RunSCCPPinned(fn *ssa.Function, pins map[ssa.Value]interface{}, sizes types.Sizes) *SCCP {
 	s := &SCCP{Fn: fn, Vals: map[ssa.Value]Lat{}, ExecBlock: map[*ssa.BasicBlock]bool{}, execEdge: map[[2]*ssa.BasicBlock]bool{}, sizes: sizes}
 	for _, p := range fn.Params {
-		if v, ok := params[p]; ok {
-			s.Vals[p] = Lat{true, v}
-		} else {
-			s.Vals[p] = Lat{}
-		}
+		s.Vals[p] = Lat{}
+	}
+	pinned := map[ssa.Value]bool{}
+	for v, c := range pins {
+		s.Vals[v] = Lat{true, c}
+		pinned[v] = true
 	}
 	if len(fn.Blocks) == 0 {
 		return s
@@ -110,6 +127,9 @@ func RunSCCP(fn *ssa.Function, params map[*ssa.Parameter]interface{}, sizes type
 						changed = true
 					}
 				case ssa.Value:
+					if pinned[x] {
+						continue
+					}
 					nv, reached := s.eval(x)
 					if !reached {
 						continue
